@@ -93,8 +93,9 @@ def write_doc(doc: Any, *, as_yaml: bool = False, raw: bytes | None = None, suff
         p = os.path.join(d, "openapi" + (suffix or ".yaml"))
         from ruamel.yaml import YAML
 
-        y = YAML(typ="safe")
+        y = YAML()  # round-trip dumper: keeps mapping order (the safe dumper sorts keys, which is not "the same document")
         y.default_flow_style = False
+        y.width = 4096
         with open(p, "w", encoding="utf-8") as f:
             y.dump(doc, f)
         return p
